@@ -9,6 +9,7 @@
 package main
 
 import (
+	"encoding/json"
 	"flag"
 	"fmt"
 	"os"
@@ -37,10 +38,20 @@ func main() {
 	repo := flag.String("repo", "/repo", "repository to analyse")
 	verif := flag.String("verif", "/verif", "verif directory (evidence, known findings)")
 	list := flag.Bool("list", false, "list implemented properties")
+	listJSON := flag.Bool("list-json", false, "print {property: what its rules decide} as JSON")
 	dbg := flag.String("debug-explore", "", "development aid: run the bare explorer on a function spec")
 	flag.Parse()
 	if *dbg != "" {
 		debugExplore(*repo, *dbg)
+		return
+	}
+	if *listJSON {
+		m := map[string]string{}
+		for id, d := range registry {
+			m[id] = d.explain
+		}
+		b, _ := json.MarshalIndent(m, "", " ")
+		fmt.Println(string(b))
 		return
 	}
 	if *list {
